@@ -275,6 +275,26 @@ def gen_scenario(rng, strategy=None, n_gc=None, feasible=True, features=None, ma
             del s1["windows"][rng.choice(["HV", "MV", "LV"])]
         elif variant == "season_over":
             s1["end"] = "2020-01-%02d" % rng.choice([5, 7, 11])
+    if strategy == "distributed" and (f.get("sub_strategies") if f.get("sub_strategies") is not None else True):
+        # the class's own options: which strategy runs at depots / opportunity stations, and options for it alone.
+        # Drawn last, so that every other draw of the scenario is what it was before this block existed.
+        # greedy / balanced / peak_shaving are modelled and tied step by step (harness/s_distributed.py);
+        # peak_load_window additionally needs options["time_windows"] (see the peak_load_window block above)
+        # and is not tied as a sub-strategy yet.
+        subs = ["greedy", "balanced", "peak_shaving"]
+        for side in ("deps", "opps"):
+            if rng.random() < 0.3:
+                options["strategy_" + side] = rng.choice(subs)
+            own = {}
+            if options.get("strategy_" + side) == "peak_shaving":
+                if rng.random() < 0.5:
+                    own["HORIZON"] = rng.choice([0.5, 1, 2, 3, 6, 12])
+                if rng.random() < 0.35:
+                    own["perfect_foresight"] = False
+            elif rng.random() < 0.15:
+                own["PRICE_THRESHOLD"] = rng.choice([0.1, 0.3, -1.0])
+            if own:
+                options["strategy_options_" + side] = own
     scn = {"scenario": {"start_time": iso(start), "interval": interval, "n_intervals": n_steps},
            "components": comp, "events": ev}
     if scn_cst is not None:
